@@ -167,7 +167,7 @@ func c18WaitListening(kind, addr string) bool {
 
 func TestVerifC18Servers(t *testing.T) {
 	L := ev.Begin("C18", "c18-servers", "exploration",
-		"scenario matrix on real servers started through fabio's own ListenAndServe*: listener {http, https, tcp, grpc, https+tcp+sni} x in-flight work {none, finishes when released, never ends (hanging handler / open tunnel / open gRPC stream)} x shutdown moment {before any request, request inside its handler, released right after shutdown began}, sequenced by causal barriers (handler-entered and listener-refuses-connect signals), then proxy.Shutdown(wait); plus every ordered pair of an idle and a busy listener of different kinds whose work ends 300 ms after shutdown began. oracle: after shutdown began connects fail; released work completes with its normal result; Shutdown returns within wait + 5s slack (a miss means 'did not return'). non-trivial = every scenario")
+		"scenario matrix on real servers started through fabio's own ListenAndServe*: listener {http, https, tcp, grpc, https+tcp+sni} x in-flight work {none, finishes when released, never ends (hanging handler / open tunnel / open gRPC stream)} x shutdown moment {before any request, request inside its handler, released right after shutdown began}, sequenced by causal barriers (handler-entered and listener-refuses-connect signals), then proxy.Shutdown(wait); plus every ordered pair of an idle and a busy listener of different kinds whose work ends 300 ms after shutdown began, also with both on the same port number of two local addresses (127.0.0.1:P, 127.0.0.2:P). oracle: after shutdown began connects fail; released work completes with its normal result; Shutdown returns within wait + 5s slack (a miss means 'did not return'). non-trivial = every scenario")
 	kinds := []string{"http", "https", "tcp", "grpc", "https+tcp+sni"}
 	type scn struct {
 		kind string
@@ -190,17 +190,51 @@ func TestVerifC18Servers(t *testing.T) {
 			}
 		}
 	}
+	// the same port on two local addresses (internal / external interface): "idle@" marks it
+	samePort := map[pair]bool{}
+	if l, err := net.Listen("tcp", "127.0.0.2:0"); err == nil { // all of 127/8 is local on Linux
+		l.Close()
+		for _, k := range []string{"http", "tcp", "grpc"} {
+			for _, k2 := range []string{"http", "tcp"} {
+				pr := pair{k2 + "@127.0.0.2", k}
+				samePort[pr] = true
+				pairs = append(pairs, pr)
+			}
+		}
+	} else {
+		L.Cap("127.0.0.2 is not a local address here: same-port-on-two-addresses scenarios skipped")
+	}
 	for _, pr := range pairs {
 		idleAddr, busyAddr := c18FreeAddr(), c18FreeAddr()
+		if samePort[pr] {
+			// the busy listener is started first, the idle one second on the same port number
+			pr.idle = strings.TrimSuffix(pr.idle, "@127.0.0.2")
+			for i := 0; ; i++ {
+				_, port, _ := net.SplitHostPort(busyAddr)
+				idleAddr = "127.0.0.2:" + port
+				l, err := net.Listen("tcp", idleAddr)
+				if err == nil {
+					l.Close()
+					break
+				}
+				if i > 100 {
+					panic("VERIF-INFRA: no port free on both loopback addresses")
+				}
+				busyAddr = c18FreeAddr()
+			}
+		}
 		wi, wb := newC18Work(), newC18Work()
-		c18Start(pr.idle, idleAddr, wi)
 		do := c18Start(pr.busy, busyAddr, wb)
-		if !c18WaitListening(pr.idle, idleAddr) || !c18WaitListening(pr.busy, busyAddr) {
+		if !c18WaitListening(pr.busy, busyAddr) {
+			panic("VERIF-INFRA: listeners did not come up")
+		}
+		c18Start(pr.idle, idleAddr, wi)
+		if !c18WaitListening(pr.idle, idleAddr) {
 			panic("VERIF-INFRA: listeners did not come up")
 		}
 		L.Case()
-		L.NontrivialKey(fmt.Sprint("pair", pr))
-		d := map[string]interface{}{"idle_listener": pr.idle, "busy_listener": pr.busy, "in_flight": "finishes 300ms after shutdown began (wait 3s)"}
+		L.NontrivialKey(fmt.Sprint("pair", pr, idleAddr[:9]))
+		d := map[string]interface{}{"idle_listener": pr.idle + " on " + idleAddr, "busy_listener": pr.busy + " on " + busyAddr, "in_flight": "finishes 300ms after shutdown began (wait 3s)"}
 		result := make(chan string, 1)
 		go func() { result <- do() }()
 		select {
@@ -227,6 +261,13 @@ func TestVerifC18Servers(t *testing.T) {
 			d["shutdown_returned_after"] = time.Since(start).String()
 		case <-time.After(12 * time.Second):
 			L.Violation("shutdown-did-not-return-within-the-wait/"+pr.busy+"/pair", d)
+		}
+		for _, la := range [][2]string{{pr.idle, idleAddr}, {pr.busy, busyAddr}} {
+			if c, err := c18Dial(la[0], la[1]); err == nil {
+				c.Close()
+				d["still_accepting"] = la[1]
+				L.Violation("listener-still-accepts-after-shutdown-returned/"+la[0]+"/pair", d)
+			}
 		}
 		L.Sample(d)
 		close(wi.release)
